@@ -333,3 +333,48 @@ def c14_bundle_releases_reservations(ctx, v):
         return v.undecided("no path returns a block")
     v.covers_total += 1
     v.covers_sat += 1
+
+
+def c14_delete_keeps_pooled_reserved(ctx, v):
+    """Mempool::delete_transactions(block transactions) from a pool holding one transaction P (one
+    input, Inv) when the accepted block carries a DIFFERENT transaction T (other signature)
+    whose input may or may not be the same output as P's — the block may be a fork block that
+    never touches the ledger: P stays pooled, and as long as P is pooled its input stays
+    reserved (the other half of Inv: every input of a pooled transaction is in utxo_map), so a
+    second spender of that output is still refused by add_transaction."""
+    body = ctx.body(r"mempool::<impl at [^>]*>::delete_transactions$")
+    ex = ctx.executor(loop_bound=4, inline="auto", no_inline=[r"GoldenTicket::deserialize_from_net$"])
+    pool, pins, psig, pre = _pool(ctx, ex, 1)
+    tin = L.sym_slip(ctx, ex, "blocktx.in")
+    tsig = ex.fresh_value("[u8; 64]", "blocktx.sig")
+    tt = ex.fresh_value("TransactionType", "blocktx.type")
+    btx = ctx.mk_struct(ex, "Transaction", "blocktx", **{"from": S.Seq([tin], "Slip"), "signature": tsig, "transaction_type": tt})
+    st = S.State()
+    st.pc.extend(pre + [L.enum_in_range(tt, L.TX_TYPES), z3.Not(L.enum_is(ctx, tt, "TransactionType", "GoldenTicket")), z3.Not(value_eq(ex, tsig, psig))])
+    outs = ex.run(body, [S.Ref(S.Cell(pool), (), True), S.Ref(S.Cell(S.Seq([btx], "Transaction")))], st)
+    v.paths += len(outs)
+    n = 0
+    key = L.slip_field(ctx, pins[0], "utxoset_key")
+    for o in outs:
+        if o.kind in ("unsupported", "unwound", "path-limit"):
+            return v.undecided("%s %s" % (o.kind, o.info))
+        if o.kind == "panic":
+            L.report_panic(v, ex, o, "delete_transactions panics: %s" % o.info)
+            continue
+        if o.kind != "return":
+            continue
+        post = ex.deref_value(o.state.frames[0].locals["_1"].v)
+        ptxs = post.fields[ctx.field_index("Mempool", "transactions")]
+        pmap = post.fields[ctx.field_index("Mempool", "utxo_map")]
+        still_pooled = z3.Or(*[z3.And(p, value_eq(ex, k, psig)) for p, k, _ in ptxs.entries]) if ptxs.entries else z3.BoolVal(False)
+        still_reserved = z3.Or(*[z3.And(p, value_eq(ex, k, key)) for p, k, _ in pmap.entries]) if pmap.entries else z3.BoolVal(False)
+        v.queries += 2
+        if ex.feasible(o.pc, z3.Not(still_pooled)):
+            L.fail_structural(v, o, "delete_transactions drops a pooled transaction that the block does not carry")
+            continue
+        if ex.feasible(o.pc, z3.And(still_pooled, z3.Not(still_reserved))):
+            L.fail_structural(v, o, "after delete_transactions a transaction is still pooled but its input is no longer reserved (a block carrying another spender of that output released it): a second spender would now be admitted")
+            continue
+        n += 1
+    v.covers_total += 1
+    v.covers_sat += 1 if n else 0
